@@ -718,7 +718,8 @@ pub fn c15_scn(name: &str, full: bool) -> ChatScn {
     }));
     s.focus = Focus { cats: ALL_CATS.to_vec(), relays: true, relay_verbs: Some(vec!["NICK"]), actor: true, actor_codes: Some(vec!["NICK", "433", "432", "ERROR"]), closes: false };
     s.spec_skip = Some(Box::new(|a| !matches!(a, Act::Send(_, l) if l.starts_with("NICK"))));
-    s.invariants = vec!["membership-symmetry", "dangling-member", "rank-set", "dangling-wallops", "wallops-set"];
+    // "and nothing else": the server's counters of invisible users and operators are not touched by a rename
+    s.invariants = vec!["membership-symmetry", "dangling-member", "rank-set", "dangling-wallops", "wallops-set", "invisible-count", "operators-count", "max-users"];
     s.state_oracle = Some(Box::new(c15_probes));
     s
 }
